@@ -661,7 +661,7 @@ func c01ErrorSweep(c *Ctx) {
 func c01Retry(c *Ctx) {
 	p := c.P
 	c.Doc("C01.retry", "retryMessage: exactly one of returnError(msg) / p.retries <- msg on every path; the retries++ and the re-queue are guarded by retries < Retry.Max, the failure by retries >= Retry.Max")
-	c.Floor("C01.retry", 3)
+	c.Floor("C01.retry", 4)
 	fn := c.NeedFn("C01.retry", "asyncProducer.retryMessage")
 	if fn == nil {
 		return
@@ -688,6 +688,19 @@ func c01Retry(c *Ctx) {
 		c.Check(g, "C01.retry", fn, "fail-guard", s.Instr(), "failure guarded by msg.retries >= Retry.Max",
 			"message failed although budget remains (or test inverted)", path)
 	}
+	// the retry channel has one sender: a message that enters it with retries == 0 is taken for a first submission
+	// by the dispatcher (inFlight counted again, interceptors and partitioner run again)
+	var others []string
+	for _, f := range p.Fns {
+		if f.Pkg != p.Sarama || f == fn {
+			continue
+		}
+		if len(Info(f).Find(SendOn(FieldLoad(pRetriesCh), nil))) > 0 {
+			others = append(others, p.Name(f))
+		}
+	}
+	c.Check(len(others) == 0, "C01.retry", fn, "only-retryMessage-requeues", nil, "asyncProducer.retries is sent on only by retryMessage (after the retries++ under the budget test)",
+		fmt.Sprintf("%v also send on asyncProducer.retries: a message re-queued without retries++ is treated as a first submission by the dispatcher — inFlight is counted twice (Close never returns), interceptors and the partitioner run again", others), nil)
 	inc := StoreTo(BinOpOf(token.ADD, retries, ConstInt(1)), "ProducerMessage.retries")
 	for _, s := range reg.Find(inc) {
 		g, path := reg.Guarded(s, under)
